@@ -1,6 +1,7 @@
 /-
 M-Ext: executable model of defcon's external-change support, as the code stands after the C05 fixes
-(repo_fixes/C05-*.diff):
+(repo_fixes/C05-*.diff, round 3: C05-r3-1 renamed glyph drops the old file's stamp, C05-r3-2 reloadImages /
+reloadData drop a pending deletion):
 
 * stamping        `Font._stamp*DataState`, `Layer._stampGlyphDataState`, `LayerSet._stampLayerInfoDataState`,
                   the `onDisk / onDiskModTime / onDiskDigest` fields of image and data entries
@@ -8,9 +9,10 @@ M-Ext: executable model of defcon's external-change support, as the code stands 
                   ImageSet, DataSet (modification-time gate, then bytes)
 * reloading       `reloadInfo/Kerning/Groups/Features/Lib/Images/Data/Layers`, `Layer.reloadGlyphs`
 * what they rest on: the lazy getters, glyph bookkeeping of a layer (`_keys`, `_glyphs`,
-  `_scheduledForDeletion`, the bound glyph set with its `contents` snapshot), the layer set (order,
-  default, action history), image/data entries, the in-place `Font.save`, and the UFO on disk with a
-  modification time per file, edited by "another program" (the `x…` operations).
+  `_scheduledForDeletion`, the bound glyph set with its `contents` snapshot; creating, deleting and
+  renaming glyphs), the layer set (order, default, action history), image/data entries, the
+  in-place `Font.save`, save-as, and the UFO on disk with a modification time per file, edited by
+  "another program" (the `x…` operations).
 
 A file's content is an opaque `Blob` (0 = the empty value; the bytes ufoLib writes for a value and
 the value it reads from bytes are identified, see the assumptions of harness/props/c05.py).
